@@ -143,23 +143,27 @@ def CertRenew (pc : Pop) (now : Int) (lenient : Bool) : Prop :=
   pc.after ≤ maxInt64 ∧ (pc.after : Int) ≤ now / ns ∧
     (pc.before = certForever ∨ lenient = true ∨ (pc.before ≤ maxInt64 ∧ now / ns < (pc.before : Int)))
 
+/-- the SSH certificate of an SSHPOP token is signed by a key in the list `generateProvisionerConfig`
+    hands to SSHPOP provisioners for the certificate's type (`GetSSHRoots`) -/
+def RootSigned (cfg : Config) (pc : Pop) : Prop := ∃ k, pc.signer = some k ∧ cfg.sshRoot pc.user k = true
+
 /-- **What each provisioner type requires of an accepted token, as coded.** -/
 def Accepts (cfg : Config) (p : Prov) (c : Cr) (l : Cl) (now : Int) (op : Op) (t : Tok) : Prop :=
   match p.ty with
   -- cloud identity documents (modelled from the source; not validated against the running code):
-  -- the audience is matched against the **sign** list for ssh-sign too, and **no subject requirement**
+  -- the audience is matched against the **sign** list for ssh-sign too; non-empty subject since 6a9c1d5
   | .gcp =>
       c.sig = true ∧ t.iss = gcpIssuer ∧ Window now t ∧ AudOk cfg p .sign t ∧
-      l.subject = true ∧ l.scope = true ∧ l.age = true ∧ l.fields = true ∧
+      l.subject = true ∧ l.scope = true ∧ l.age = true ∧ l.fields = true ∧ t.sub ≠ [] ∧
       (op = .sign ∨ (op = .sshSign ∧ p.sshEnabled = true ∧ l.sshKind = true))
   | .aws =>
       c.sig = true ∧ c.chain = true ∧ l.fields = true ∧ t.iss = awsIssuer ∧ Window now t ∧ AudOk cfg p .sign t ∧
-      l.subject = true ∧ l.scope = true ∧ l.age = true ∧
+      l.subject = true ∧ l.scope = true ∧ l.age = true ∧ t.sub ≠ [] ∧
       (op = .sign ∨ (op = .sshSign ∧ p.sshEnabled = true))
   | .azure =>
       -- the resource group / subscription / object id filters (`l.scope`) hold for sign only
       c.sig = true ∧ (p.oidcIssuer = [] ∨ t.iss = p.oidcIssuer) ∧ (∃ a ∈ t.aud, a.raw = p.audience) ∧
-      Window now t ∧ t.tid = p.clientId ∧ l.fields = true ∧
+      Window now t ∧ t.tid = p.clientId ∧ l.fields = true ∧ t.sub ≠ [] ∧
       ((op = .sign ∧ l.scope = true) ∨ (op = .sshSign ∧ p.sshEnabled = true))
   | .jwk =>
       c.sig = true ∧ ClaimsOk cfg p now op t ∧
@@ -168,7 +172,7 @@ def Accepts (cfg : Config) (p : Prov) (c : Cr) (l : Cl) (now : Int) (op : Op) (t
       c.chain = true ∧ c.digSig = true ∧ c.sig = true ∧ ClaimsOk cfg p now op t ∧
       (op = .sign ∨ op = .revoke ∨ (op = .sshSign ∧ SshTok p t))
   | .sshpop =>
-      ∃ pc, t.pop = some pc ∧ c.chain = true ∧ c.sig = true ∧ ClaimsOk cfg p now op t ∧
+      ∃ pc, t.pop = some pc ∧ RootSigned cfg pc ∧ c.sig = true ∧ ClaimsOk cfg p now op t ∧
       ((op = .sshRevoke ∧ CertNow pc now ∧ pc.serialIsSub = true) ∨
        (op = .sshRekey ∧ CertNow pc now ∧ pc.host = true) ∨
        (op = .sshRenew ∧ pc.host = true ∧ p.disableRenewal = false ∧ CertRenew pc now p.renewAfterExpiry))
@@ -310,21 +314,26 @@ theorem x5cOp_ok (cfg : Config) (p : Prov) (c : Cr) (now : Int) (op : Op) (t : T
 
 theorem sshpopTok_ok (cfg : Config) (p : Prov) (c : Cr) (now : Int) (op : Op) (t : Tok) (cv : Bool) (pc : Pop)
     (hty : p.ty = .sshpop) (h : sshpopTok cfg p c now op t cv = .ok pc) :
-    t.pop = some pc ∧ c.chain = true ∧ c.sig = true ∧ ClaimsOk cfg p now op t ∧ (cv = true → CertNow pc now) := by
+    t.pop = some pc ∧ RootSigned cfg pc ∧ c.sig = true ∧ ClaimsOk cfg p now op t ∧ (cv = true → CertNow pc now) := by
   have hn : p.expIssuer = p.name := by simp [Prov.expIssuer, hty]
+  have root : ∀ q : Pop, (match q.signer with | some k => cfg.sshRoot q.user k | none => false) = true → RootSigned cfg q := by
+    intro q hq
+    cases hs : q.signer with
+    | none => simp [hs] at hq
+    | some k => exact ⟨k, hs, by simpa [hs] using hq⟩
   unfold sshpopTok at h
   split at h
   · simp at h
   · rename_i pc' hp
     cases cv <;> simp only [bind_ok, need_ok, pure_ok, if_true, if_false, Bool.false_eq_true] at h
     · obtain ⟨_, h1, _, h2, _, h3, rfl⟩ := h
-      exact ⟨hp, h1, h2, claims_of _ _ _ _ _ _ hn h3, by simp⟩
+      exact ⟨hp, root _ h1, h2, claims_of _ _ _ _ _ _ hn h3, by simp⟩
     · obtain ⟨_, h0, _, h1, _, h2, _, h3, rfl⟩ := h
-      exact ⟨hp, h1, h2, claims_of _ _ _ _ _ _ hn h3, fun _ => certWindowTok_ok _ _ _ h0⟩
+      exact ⟨hp, root _ h1, h2, claims_of _ _ _ _ _ _ hn h3, fun _ => certWindowTok_ok _ _ _ h0⟩
 
 theorem sshpopOp_ok (cfg : Config) (p : Prov) (c : Cr) (now : Int) (op : Op) (t : Tok) (u : Unit)
     (hty : p.ty = .sshpop) (h : sshpopOp cfg p c now op t = .ok u) :
-    ∃ pc, t.pop = some pc ∧ c.chain = true ∧ c.sig = true ∧ ClaimsOk cfg p now op t ∧
+    ∃ pc, t.pop = some pc ∧ RootSigned cfg pc ∧ c.sig = true ∧ ClaimsOk cfg p now op t ∧
       ((op = .sshRevoke ∧ CertNow pc now ∧ pc.serialIsSub = true) ∨
        (op = .sshRekey ∧ CertNow pc now ∧ pc.host = true) ∨
        (op = .sshRenew ∧ pc.host = true ∧ p.disableRenewal = false ∧ CertRenew pc now p.renewAfterExpiry)) := by
@@ -445,81 +454,84 @@ theorem audOk_of_match (cfg : Config) (p : Prov) (op : Op) (t : Tok)
 theorem gcpTok_ok (cfg : Config) (p : Prov) (c : Cr) (l : Cl) (now : Int) (t : Tok) (u : Unit)
     (hty : p.ty = .gcp) (h : gcpTok cfg p c l now t = .ok u) :
     c.sig = true ∧ t.iss = gcpIssuer ∧ Window now t ∧ AudOk cfg p .sign t ∧
-      l.subject = true ∧ l.scope = true ∧ l.age = true ∧ l.fields = true := by
+      l.subject = true ∧ l.scope = true ∧ l.age = true ∧ l.fields = true ∧ t.sub ≠ [] := by
   unfold gcpTok at h
   simp only [bind_ok, need_ok] at h
-  obtain ⟨_, h0, _, h1, _, h2, _, h3, _, h4, _, h5, h6⟩ := h
+  obtain ⟨_, h0, _, h1, _, h2, _, h3, _, h4, _, h5, _, hs, h6⟩ := h
   obtain ⟨hi, hw⟩ := validate_ok _ _ _ _ h1
-  refine ⟨h0, ?_, hw, audOk_of_match _ _ _ _ h2, h3, h4, h5, h6⟩
-  simp only [Prov.expIssuer, hty] at hi
-  rcases hi with hi | hi
-  · simp [gcpIssuer, s] at hi
-  · exact hi
+  refine ⟨h0, ?_, hw, audOk_of_match _ _ _ _ h2, h3, h4, h5, h6, ?_⟩
+  · simp only [Prov.expIssuer, hty] at hi
+    rcases hi with hi | hi
+    · simp [gcpIssuer, s] at hi
+    · exact hi
+  · intro hh; simp [hh] at hs
 
 theorem gcpOp_ok (cfg : Config) (p : Prov) (c : Cr) (l : Cl) (now : Int) (op : Op) (t : Tok) (u : Unit)
     (hty : p.ty = .gcp) (h : gcpOp cfg p c l now op t = .ok u) :
     c.sig = true ∧ t.iss = gcpIssuer ∧ Window now t ∧ AudOk cfg p .sign t ∧
-      l.subject = true ∧ l.scope = true ∧ l.age = true ∧ l.fields = true ∧
+      l.subject = true ∧ l.scope = true ∧ l.age = true ∧ l.fields = true ∧ t.sub ≠ [] ∧
       (op = .sign ∨ (op = .sshSign ∧ p.sshEnabled = true ∧ l.sshKind = true)) := by
   cases op <;> simp only [gcpOp, bind_ok, need_ok] at h
-  · obtain ⟨a, b, c', d, e, f, g, i⟩ := gcpTok_ok _ _ _ _ _ _ _ hty h
-    exact ⟨a, b, c', d, e, f, g, i, .inl rfl⟩
+  · obtain ⟨a, b, c', d, e, f, g, i, j⟩ := gcpTok_ok _ _ _ _ _ _ _ hty h
+    exact ⟨a, b, c', d, e, f, g, i, j, .inl rfl⟩
   · obtain ⟨_, hs, _, hk, h'⟩ := h
-    obtain ⟨a, b, c', d, e, f, g, i⟩ := gcpTok_ok _ _ _ _ _ _ _ hty h'
-    exact ⟨a, b, c', d, e, f, g, i, .inr ⟨rfl, hs, hk⟩⟩
+    obtain ⟨a, b, c', d, e, f, g, i, j⟩ := gcpTok_ok _ _ _ _ _ _ _ hty h'
+    exact ⟨a, b, c', d, e, f, g, i, j, .inr ⟨rfl, hs, hk⟩⟩
   all_goals exact absurd h (baseReject_ne _)
 
 theorem awsTok_ok (cfg : Config) (p : Prov) (c : Cr) (l : Cl) (now : Int) (t : Tok) (u : Unit)
     (hty : p.ty = .aws) (h : awsTok cfg p c l now t = .ok u) :
     c.sig = true ∧ c.chain = true ∧ l.fields = true ∧ t.iss = awsIssuer ∧ Window now t ∧ AudOk cfg p .sign t ∧
-      l.subject = true ∧ l.scope = true ∧ l.age = true := by
+      l.subject = true ∧ l.scope = true ∧ l.age = true ∧ t.sub ≠ [] := by
   unfold awsTok at h
   simp only [bind_ok, need_ok] at h
-  obtain ⟨_, h0, _, h1, _, h2, _, h3, _, h4, _, h5, _, h6, h7⟩ := h
+  obtain ⟨_, h0, _, h1, _, h2, _, h3, _, h4, _, hs, _, h5, _, h6, h7⟩ := h
   obtain ⟨hi, hw⟩ := validate_ok _ _ _ _ h3
-  refine ⟨h0, h1, h2, ?_, hw, audOk_of_match _ _ _ _ h4, h5, h6, h7⟩
-  simp only [Prov.expIssuer, hty] at hi
-  rcases hi with hi | hi
-  · simp [awsIssuer, s] at hi
-  · exact hi
+  refine ⟨h0, h1, h2, ?_, hw, audOk_of_match _ _ _ _ h4, h5, h6, h7, ?_⟩
+  · simp only [Prov.expIssuer, hty] at hi
+    rcases hi with hi | hi
+    · simp [awsIssuer, s] at hi
+    · exact hi
+  · intro hh; simp [hh] at hs
 
 theorem awsOp_ok (cfg : Config) (p : Prov) (c : Cr) (l : Cl) (now : Int) (op : Op) (t : Tok) (u : Unit)
     (hty : p.ty = .aws) (h : awsOp cfg p c l now op t = .ok u) :
     c.sig = true ∧ c.chain = true ∧ l.fields = true ∧ t.iss = awsIssuer ∧ Window now t ∧ AudOk cfg p .sign t ∧
-      l.subject = true ∧ l.scope = true ∧ l.age = true ∧
+      l.subject = true ∧ l.scope = true ∧ l.age = true ∧ t.sub ≠ [] ∧
       (op = .sign ∨ (op = .sshSign ∧ p.sshEnabled = true)) := by
   cases op <;> simp only [awsOp, bind_ok, need_ok] at h
-  · obtain ⟨a, b, c', d, e, f, g, i, j⟩ := awsTok_ok _ _ _ _ _ _ _ hty h
-    exact ⟨a, b, c', d, e, f, g, i, j, .inl rfl⟩
+  · obtain ⟨a, b, c', d, e, f, g, i, j, k⟩ := awsTok_ok _ _ _ _ _ _ _ hty h
+    exact ⟨a, b, c', d, e, f, g, i, j, k, .inl rfl⟩
   · obtain ⟨_, hs, h'⟩ := h
-    obtain ⟨a, b, c', d, e, f, g, i, j⟩ := awsTok_ok _ _ _ _ _ _ _ hty h'
-    exact ⟨a, b, c', d, e, f, g, i, j, .inr ⟨rfl, hs⟩⟩
+    obtain ⟨a, b, c', d, e, f, g, i, j, k⟩ := awsTok_ok _ _ _ _ _ _ _ hty h'
+    exact ⟨a, b, c', d, e, f, g, i, j, k, .inr ⟨rfl, hs⟩⟩
   all_goals exact absurd h (baseReject_ne _)
 
 theorem azureTok_ok (p : Prov) (c : Cr) (l : Cl) (now : Int) (t : Tok) (u : Unit)
     (h : azureTok p c l now t = .ok u) :
     c.sig = true ∧ (p.oidcIssuer = [] ∨ t.iss = p.oidcIssuer) ∧ (∃ a ∈ t.aud, a.raw = p.audience) ∧
-      Window now t ∧ t.tid = p.clientId ∧ l.fields = true := by
+      Window now t ∧ t.tid = p.clientId ∧ l.fields = true ∧ t.sub ≠ [] := by
   unfold azureTok at h
   simp only [bind_ok, need_ok] at h
-  obtain ⟨_, h0, _, h1, _, h2, _, h3, _, h4, h5⟩ := h
-  refine ⟨h0, ?_, by simpa using h2, (validate_ok _ _ _ _ h3).2, by simpa using h4, h5⟩
-  simp at h1; rcases h1 with h1 | h1
-  · exact .inl h1
-  · exact .inr h1.symm
+  obtain ⟨_, h0, _, h1, _, h2, _, h3, _, hs, _, h4, h5⟩ := h
+  refine ⟨h0, ?_, by simpa using h2, (validate_ok _ _ _ _ h3).2, by simpa using h4, h5, ?_⟩
+  · simp at h1; rcases h1 with h1 | h1
+    · exact .inl h1
+    · exact .inr h1.symm
+  · intro hh; simp [hh] at hs
 
 theorem azureOp_ok (p : Prov) (c : Cr) (l : Cl) (now : Int) (op : Op) (t : Tok) (u : Unit)
     (h : azureOp p c l now op t = .ok u) :
     c.sig = true ∧ (p.oidcIssuer = [] ∨ t.iss = p.oidcIssuer) ∧ (∃ a ∈ t.aud, a.raw = p.audience) ∧
-      Window now t ∧ t.tid = p.clientId ∧ l.fields = true ∧
+      Window now t ∧ t.tid = p.clientId ∧ l.fields = true ∧ t.sub ≠ [] ∧
       ((op = .sign ∧ l.scope = true) ∨ (op = .sshSign ∧ p.sshEnabled = true)) := by
   cases op <;> simp only [azureOp, bind_ok, need_ok] at h
   · obtain ⟨_, h', hsc⟩ := h
-    obtain ⟨a, b, c', d, e, f⟩ := azureTok_ok _ _ _ _ _ _ h'
-    exact ⟨a, b, c', d, e, f, .inl ⟨rfl, hsc⟩⟩
+    obtain ⟨a, b, c', d, e, f, g⟩ := azureTok_ok _ _ _ _ _ _ h'
+    exact ⟨a, b, c', d, e, f, g, .inl ⟨rfl, hsc⟩⟩
   · obtain ⟨_, hs, h'⟩ := h
-    obtain ⟨a, b, c', d, e, f⟩ := azureTok_ok _ _ _ _ _ _ h'
-    exact ⟨a, b, c', d, e, f, .inr ⟨rfl, hs⟩⟩
+    obtain ⟨a, b, c', d, e, f, g⟩ := azureTok_ok _ _ _ _ _ _ h'
+    exact ⟨a, b, c', d, e, f, g, .inr ⟨rfl, hs⟩⟩
   all_goals exact absurd h (baseReject_ne _)
 
 theorem tokenlessOp_ok (ty : PType) (op : Op) (u : Unit) (h : tokenlessOp ty op = .ok u) :
@@ -653,11 +665,14 @@ theorem authorize_sound (cfg : Config) (now : Int) (op : Op) (t : Tok) (i : Nat)
 /-! ### "verifies under the key material of a configured provisioner" -/
 
 /-- the token verifies under the key material of provisioner `p` (crypto facts `c`), per type -/
-def Verifies (p : Prov) (c : Cr) : Prop :=
+def Verifies (cfg : Config) (p : Prov) (c : Cr) (t : Tok) : Prop :=
   match p.ty with
   | .jwk | .oidc | .k8ssa | .gcp | .azure => c.sig = true
   | .x5c => c.chain = true ∧ c.digSig = true ∧ c.sig = true
-  | .sshpop | .nebula | .aws => c.chain = true ∧ c.sig = true
+  | .nebula | .aws => c.chain = true ∧ c.sig = true
+  -- SSHPOP: the certificate is signed by one of this CA's own SSH keys of its type (never a
+  -- federated CA's), and the token by the certificate's key
+  | .sshpop => (∃ pc, t.pop = some pc ∧ RootSigned cfg pc) ∧ c.sig = true
   | .acme | .scep => False
 
 /-- a CA with one DNS name, one JWK provisioner, one OIDC provisioner and one ACME provisioner -/
@@ -665,7 +680,7 @@ def exHost : Host := ⟨s "ca", false, true, s "ca", s "ca"⟩
 def exJwk : Prov := ⟨.jwk, s "jwk", s "k1", [], [], [], s "jwk:k1", true, true, false, false⟩
 def exOidc : Prov := ⟨.oidc, s "oidc", [], s "client", [], s "https://idp", s "client", true, true, false, false⟩
 def exAcme : Prov := ⟨.acme, s "acme", [], [], [], [], s "acme/acme", true, false, false, false⟩
-def exCfg : Config := ⟨[exHost], [exJwk, exOidc, exAcme], true, false, 1000⟩
+def exCfg : Config := ⟨[exHost], [exJwk, exOidc, exAcme], true, false, 1000, []⟩
 
 def exTok : Tok :=
   { parsed := true, kid := s "k1", iss := s "jwk", sub := s "host", aud := [⟨s "https://ca/1.0/sign", s "https://ca/1.0/sign"⟩],
@@ -706,7 +721,7 @@ def authorizeOld (cfg : Config) (now : Int) (op : Op) (t : Tok) : Out Nat := do
     false: with an ACME provisioner configured, `forgedTok` was authorized for sign (and revoke). -/
 theorem authorize_genuine_refuted :
     ¬ ∀ (cfg : Config) (now : Int) (op : Op) (t : Tok) (i : Nat), authorizeOld cfg now op t = .ok i →
-        ∃ p, cfg.provs[i]? = some p ∧ Verifies p (t.crAt i) := by
+        ∃ p, cfg.provs[i]? = some p ∧ Verifies cfg p (t.crAt i) t := by
   intro h
   have hacc : authorizeOld exCfg 0 .sign forgedTok = .ok 2 := by decide
   obtain ⟨p, hp, hv⟩ := h _ _ _ _ _ hacc
@@ -725,7 +740,7 @@ example : authorize exCfg 0 .revoke forgedTok = .reject .tokenless := by decide
     answered (crypto facts as premises: `Verifies`). -/
 theorem authorize_genuine (cfg : Config) (now : Int) (op : Op) (t : Tok) (i : Nat)
     (h : authorize cfg now op t = .ok i) :
-    ∃ p, cfg.provs[i]? = some p ∧ p.init = true ∧ Verifies p (t.crAt i) := by
+    ∃ p, cfg.provs[i]? = some p ∧ p.init = true ∧ Verifies cfg p (t.crAt i) t := by
   obtain ⟨p, hp, ⟨h1, h2⟩, hi, _, _, _, _, ha⟩ := authorize_sound _ _ _ _ _ h
   refine ⟨p, hp, hi, ?_⟩
   unfold Accepts at ha
@@ -733,7 +748,7 @@ theorem authorize_genuine (cfg : Config) (now : Int) (op : Op) (t : Tok) (i : Na
   cases hty : p.ty <;> simp only [hty] at ha h1 h2 ⊢
   · exact ha.1
   · exact ⟨ha.1, ha.2.1, ha.2.2.1⟩
-  · obtain ⟨_, _, a, b, _⟩ := ha; exact ⟨a, b⟩
+  · obtain ⟨pc, hpc, a, b, _⟩ := ha; exact ⟨⟨pc, hpc, a⟩, b⟩
   · exact ha.1
   · exact ha.1
   · exact ⟨ha.1, ha.2.1⟩
@@ -773,50 +788,50 @@ theorem subject_refuted :
 /-- the same token is refused now -/
 example : authorize exCfg (2000 * ns) .sign oidcTokNoSub = .reject .subject := by decide
 
-/-- the provisioner types whose code does not require a subject: the three cloud identity types
-    (modelled from the source, not validated); every other type requires one for every operation -/
-def NoSubjectTest (ty : PType) : Prop := ty = .gcp ∨ ty = .aws ∨ ty = .azure
+/-- `GCP.authorizeToken` as it was before fix 6a9c1d5 (no subject test; historic, as were `AWS` and `Azure`) -/
+def gcpTokOld (cfg : Config) (p : Prov) (c : Cr) (l : Cl) (now : Int) (t : Tok) : Out Unit := do
+  need c.sig .signature
+  validate p.expIssuer now t
+  need (audMatch t.aud (provAuds cfg p .sign)) .audience
+  need l.subject .cloudFilter
+  need l.scope .cloudFilter
+  need l.age .cloudAge
+  need l.fields .cloudDocument
 
-/-- **subject_nonempty.** An accepted token has a non-empty subject, unless a cloud identity
-    provisioner (GCP, AWS, Azure) answered. For every configuration, instant, operation and token. -/
+/-- the provisioner types whose code does not require a subject: none since 6a9c1d5
+    (kept as a name so that the history of the statement stays readable) -/
+def NoSubjectTest (_ : PType) : Prop := False
+
+/-- **subject_nonempty.** An accepted token has a non-empty subject. For every configuration,
+    instant, operation, token and every one of the eleven provisioner types. -/
 theorem subject_nonempty (cfg : Config) (now : Int) (op : Op) (t : Tok) (i : Nat)
-    (h : authorize cfg now op t = .ok i) :
-    ∃ p, cfg.provs[i]? = some p ∧ (t.sub ≠ [] ∨ NoSubjectTest p.ty) := by
-  obtain ⟨p, hp, ⟨h1, h2⟩, _, _, _, _, _, ha⟩ := authorize_sound _ _ _ _ _ h
-  refine ⟨p, hp, ?_⟩
+    (h : authorize cfg now op t = .ok i) : t.sub ≠ [] := by
+  obtain ⟨p, _, ⟨h1, h2⟩, _, _, _, _, _, ha⟩ := authorize_sound _ _ _ _ _ h
   unfold Accepts at ha
-  unfold NoSubjectTest
-  cases hty : p.ty <;> simp only [hty] at ha h1 h2 ⊢
-  · exact .inl ha.2.1.2.2.2
-  · exact .inl ha.2.2.2.1.2.2.2
-  · obtain ⟨_, _, _, _, hc, _⟩ := ha; exact .inl hc.2.2.2
-  · exact .inl ha.2.2.2.1
-  · exact .inl ha.2.2.2.1
-  · exact .inl ha.2.2.1.2.2.2
+  cases hty : p.ty <;> simp only [hty] at ha h1 h2
+  · exact ha.2.1.2.2.2
+  · exact ha.2.2.2.1.2.2.2
+  · obtain ⟨_, _, _, _, hc, _⟩ := ha; exact hc.2.2.2
+  · exact ha.2.2.2.1
+  · exact ha.2.2.2.1
+  · exact ha.2.2.1.2.2.2
   · exact absurd rfl h1
   · exact absurd rfl h2
-  · simp
-  · simp
-  · simp
+  · exact ha.2.2.2.2.2.2.2.2.2.1
+  · exact ha.2.2.2.2.2.2.2.2.1
+  · exact ha.2.2.2.2.2.2.1
 
-/-- **subject_partial / mutation: empty subject.** A token without subject is accepted only by a
-    cloud identity provisioner; every validated provisioner type refuses it for every operation. -/
-theorem subject_partial (cfg : Config) (now : Int) (op : Op) (t : Tok) (i : Nat)
-    (hs : t.sub = []) (h : authorize cfg now op t = .ok i) :
-    ∃ p, cfg.provs[i]? = some p ∧ NoSubjectTest p.ty := by
-  obtain ⟨p, hp, hc⟩ := subject_nonempty _ _ _ _ _ h
-  exact ⟨p, hp, hc.resolve_left (fun hn => hn hs)⟩
-
+/-- **mutation: empty subject** ⇒ refused, unconditionally. -/
 theorem mutation_empty_subject (cfg : Config) (now : Int) (op : Op) (t : Tok)
-    (hno : ∀ p ∈ cfg.provs, p.ty ≠ .gcp ∧ p.ty ≠ .aws ∧ p.ty ≠ .azure)
     (hs : t.sub = []) : ∀ i, authorize cfg now op t ≠ .ok i := by
   intro i h
-  obtain ⟨p, hp, hc⟩ := subject_partial _ _ _ _ _ hs h
-  obtain ⟨h2, h3, h4⟩ := hno p (List.mem_of_getElem? hp)
-  rcases hc with hc | hc | hc
-  · exact h2 hc
-  · exact h3 hc
-  · exact h4 hc
+  exact subject_nonempty _ _ _ _ _ h hs
+
+/-- (kept for the record of the earlier rounds) a token without subject is accepted by no type -/
+theorem subject_partial (cfg : Config) (now : Int) (op : Op) (t : Tok) (i : Nat)
+    (hs : t.sub = []) (h : authorize cfg now op t = .ok i) :
+    ∃ p, cfg.provs[i]? = some p ∧ NoSubjectTest p.ty :=
+  absurd hs (subject_nonempty _ _ _ _ _ h)
 
 /-! ### one corollary per mutation class of the statement -/
 
@@ -890,7 +905,7 @@ theorem mutation_uninitialised (cfg : Config) (now : Int) (op : Op) (t : Tok)
     claims name, it is refused. (That an altered bit makes
     verification fail is go-jose's / crypto's guarantee: a premise, sampled by the harness.) -/
 theorem mutation_other_key (cfg : Config) (now : Int) (op : Op) (t : Tok)
-    (hk : ∀ i p, loadByToken cfg t = some (i, p) → ¬ Verifies p (t.crAt i)) :
+    (hk : ∀ i p, loadByToken cfg t = some (i, p) → ¬ Verifies cfg p (t.crAt i) t) :
     ∀ i, authorize cfg now op t ≠ .ok i := by
   intro i h
   obtain ⟨p, _, _, hv⟩ := authorize_genuine _ _ _ _ _ h
@@ -909,7 +924,7 @@ theorem mutation_other_key (cfg : Config) (now : Int) (op : Op) (t : Tok)
     cases hty : q.ty <;> simp only [hty] at ha ⊢
     · exact ha.1
     · exact ⟨ha.1, ha.2.1, ha.2.2.1⟩
-    · obtain ⟨_, _, a, b, _⟩ := ha; exact ⟨a, b⟩
+    · obtain ⟨pc, hpc, a, b, _⟩ := ha; exact ⟨⟨pc, hpc, a⟩, b⟩
     · exact ha.1
     · exact ha.1
     · exact ⟨ha.1, ha.2.1⟩
@@ -1018,7 +1033,7 @@ theorem mutation_other_audience (cfg : Config) (now : Int) (op : Op) (t : Tok)
 /-! ### the hypotheses of the corollaries are met by ordinary states -/
 
 /-- the example CA without its ACME provisioner (any configuration will do since 719d1fc) -/
-def exCfg' : Config := ⟨[exHost], [exJwk, exOidc], true, false, 1000⟩
+def exCfg' : Config := ⟨[exHost], [exJwk, exOidc], true, false, 1000, []⟩
 
 /-- expired by 61 s: refused; by 60 s: still accepted (`mutation_expired`) -/
 example : authorize exCfg' ((2300 + 61) * ns) .sign exTok = .reject .expired := by decide
@@ -1032,7 +1047,7 @@ example : authorize exCfg' (2000 * ns) .sign { exTok with cr := [Cr.none, Cr.non
 /-- kid of a provisioner that is not configured (`mutation_removed`) -/
 example : authorize exCfg' (2000 * ns) .sign { exTok with kid := s "gone" } = .reject .notFound := by decide
 /-- a provisioner that failed to initialise (`mutation_uninitialised`) -/
-example : authorize ⟨[exHost], [{ exJwk with init := false }], true, false, 1000⟩ (2000 * ns) .sign exTok = .reject .disabled := by decide
+example : authorize ⟨[exHost], [{ exJwk with init := false }], true, false, 1000, []⟩ (2000 * ns) .sign exTok = .reject .disabled := by decide
 /-- addressed to another CA (`mutation_other_audience`): the lookup itself fails -/
 example : authorize exCfg' (2000 * ns) .sign
     { exTok with aud := [⟨s "https://other/1.0/sign", s "https://other/1.0/sign"⟩] } = .reject .notFound := by decide
@@ -1040,13 +1055,13 @@ example : authorize exCfg' (2000 * ns) .sign
 example : authorize exCfg' (2000 * ns) .sign
     { exTok with aud := [⟨s "https://ca:8443/1.0/sign", s "https://ca/1.0/sign"⟩] } = .ok 0 := by decide
 /-- empty subject (`mutation_empty_subject`) -/
-example : authorize ⟨[exHost], [exJwk], true, false, 1000⟩ (2000 * ns) .sign { exTok with sub := [] } = .reject .subject := by decide
+example : authorize ⟨[exHost], [exJwk], true, false, 1000, []⟩ (2000 * ns) .sign { exTok with sub := [] } = .reject .subject := by decide
 
 /-! ### cloud identity provisioners: the model accepts what the source accepts (not validated by the harness) -/
 
 def exGcp : Prov := ⟨.gcp, s "gcp", [], [], [], [], s "gcp/gcp", true, true, false, false⟩
 def exAzure : Prov := ⟨.azure, s "az", [], s "tenant-1", s "https://management.azure.com/", s "https://sts/tenant-1/", [], true, true, false, false⟩
-def exCloud : Config := ⟨[exHost], [exGcp, exAzure], true, false, 1000⟩
+def exCloud : Config := ⟨[exHost], [exGcp, exAzure], true, false, 1000, []⟩
 
 def gcpTokEx : Tok :=
   { parsed := true, kid := s "g1", iss := gcpIssuer, sub := [], aud := [⟨s "https://ca/1.0/sign#gcp/gcp", s "https://ca/1.0/sign#gcp/gcp"⟩],
@@ -1055,10 +1070,13 @@ def gcpTokEx : Tok :=
     cr := [⟨true, false, false, false, false, false, false, false⟩, Cr.none],
     cl := [⟨true, true, true, true, true⟩, Cl.none] }
 
-/-- a verified GCP identity token without `sub` is accepted for sign and, with the same sign audience, for ssh-sign -/
-example : authorize exCloud (2000 * ns) .sign gcpTokEx = .ok 0 := by decide
-example : authorize exCloud (2000 * ns) .sshSign gcpTokEx = .ok 0 := by decide
-example : authorize exCloud (2000 * ns) .revoke gcpTokEx = .reject .notImplemented := by decide
+/-- a verified GCP identity token is accepted for sign and, with the same sign audience, for ssh-sign;
+    without `sub` it is refused since 6a9c1d5 (C01-cloud-sub), while the historic definition let it through -/
+example : authorize exCloud (2000 * ns) .sign { gcpTokEx with sub := s "1234567" } = .ok 0 := by decide
+example : authorize exCloud (2000 * ns) .sshSign { gcpTokEx with sub := s "1234567" } = .ok 0 := by decide
+example : authorize exCloud (2000 * ns) .revoke { gcpTokEx with sub := s "1234567" } = .reject .notImplemented := by decide
+example : authorize exCloud (2000 * ns) .sign gcpTokEx = .reject .subject := by decide
+example : gcpTokOld exCloud exGcp (gcpTokEx.crAt 0) (gcpTokEx.clAt 0) (2000 * ns) gcpTokEx = .ok () := by decide
 
 def azTokEx : Tok :=
   { parsed := true, kid := s "a1", iss := s "https://sts/tenant-1/", sub := s "obj", aud := [⟨s "https://management.azure.com/", s "https://management.azure.com/"⟩],
@@ -1071,6 +1089,302 @@ def azTokEx : Tok :=
     authorized for an SSH host certificate (`AuthorizeSSHSign` does not apply the filters) -/
 example : authorize exCloud (2000 * ns) .sign azTokEx = .reject .cloudFilter := by decide
 example : authorize exCloud (2000 * ns) .sshSign azTokEx = .ok 1 := by decide
+
+/-! ### SSHPOP: only this CA's own SSH keys count, never a federated CA's -/
+
+theorem sshRoot_spec (cfg : Config) (user : Bool) (k : Nat) (h : cfg.sshRoot user k = true) :
+    ∃ key, cfg.sshKeys[k]? = some key ∧ key.user = user ∧ key.cls ≠ .federated := by
+  unfold Config.sshRoot at h
+  split at h
+  · rename_i key hk
+    simp only [Bool.and_eq_true, beq_iff_eq, bne_iff_ne, ne_eq] at h
+    exact ⟨key, hk, h.1, h.2⟩
+  · simp at h
+
+/-- **sshpop_own_key.** If an SSHPOP provisioner answers, the SSH certificate in the token is signed
+    by a key the authority lists among its *roots* for the certificate's type — its current signing
+    key or a retired one (`ssh.keys`, `federated: false`) — and not by a federated CA's key. For
+    every configuration, instant, operation and token. -/
+theorem sshpop_own_key (cfg : Config) (now : Int) (op : Op) (t : Tok) (i : Nat) (p : Prov)
+    (h : authorize cfg now op t = .ok i) (hp : cfg.provs[i]? = some p) (hty : p.ty = .sshpop) :
+    ∃ pc k key, t.pop = some pc ∧ pc.signer = some k ∧ cfg.sshKeys[k]? = some key ∧
+      key.user = pc.user ∧ key.cls ≠ .federated := by
+  obtain ⟨q, hq, _, _, _, _, _, _, ha⟩ := authorize_sound _ _ _ _ _ h
+  rw [hp] at hq
+  cases Option.some.inj hq
+  unfold Accepts at ha
+  simp only [hty] at ha
+  obtain ⟨pc, hpc, ⟨k, hk, hr⟩, _⟩ := ha
+  obtain ⟨key, h1, h2, h3⟩ := sshRoot_spec _ _ _ hr
+  exact ⟨pc, k, key, hpc, hk, h1, h2, h3⟩
+
+/-- a CA with its host key (0), a retired host key (1) and a federated CA's host key (2) -/
+def exSshCfg : Config :=
+  { hosts := [exHost], provs := [⟨.sshpop, s "sshpop", [], [], [], [], s "sshpop/sshpop", true, true, false, false⟩],
+    sshCA := true, disableIat := false, startTime := 1000,
+    sshKeys := [⟨false, .own⟩, ⟨false, .retired⟩, ⟨false, .federated⟩] }
+
+def popTokEx (signer : Option Nat) : Tok :=
+  { parsed := true, kid := [], iss := s "sshpop", sub := s "77",
+    aud := [⟨s "https://ca/1.0/ssh/rekey#sshpop/sshpop", s "https://ca/1.0/ssh/rekey#sshpop/sshpop"⟩],
+    exp := some 2300, nbf := some 1999, iat := some 2000, azp := [], tid := [], email := [], lbtOk := true,
+    fragment := s "sshpop/sshpop", fragEsc := s "sshpop/sshpop", hasSSH := false, sshTypeOk := true, nebSshOk := true,
+    pop := some { after := 1000, before := 3000, host := true, user := false, serialIsSub := true, signer := signer },
+    cr := [⟨true, false, false, false, false, false, false, false⟩] }
+
+/-- certificates signed by the current or the retired key are accepted, by the federated key or a foreign one refused -/
+example : authorize exSshCfg (2000 * ns) .sshRekey (popTokEx (some 0)) = .ok 0 := by decide
+example : authorize exSshCfg (2000 * ns) .sshRekey (popTokEx (some 1)) = .ok 0 := by decide
+example : authorize exSshCfg (2000 * ns) .sshRekey (popTokEx (some 2)) = .reject .chain := by decide
+example : authorize exSshCfg (2000 * ns) .sshRekey (popTokEx none) = .reject .chain := by decide
+
+/-! ### the provisioner collection: "currently configured" over every history of admin operations -/
+
+/-- the three indexes agree: each holds exactly the provisioners of the others, under their own key -/
+def Inv (c : Coll) : Prop :=
+  (∀ k p, c.byID k = some p → p.id = k ∧ c.byName p.name = some p ∧ c.byTok p.tok = some p) ∧
+  (∀ k p, c.byName k = some p → p.name = k ∧ c.byID p.id = some p) ∧
+  (∀ k p, c.byTok k = some p → p.tok = k ∧ c.byID p.id = some p)
+
+theorem inv_empty : Inv Coll.empty := by simp [Inv, Coll.empty]
+
+theorem inv_store (c : Coll) (p : CP) (h : Inv c) : Inv (c.store p).1 := by
+  unfold Coll.store
+  split
+  · exact h
+  · split
+    · exact h
+    · split
+      · exact h
+      · rename_i h1 h2 h3
+        obtain ⟨ha, hb, hc⟩ := h
+        refine ⟨?_, ?_, ?_⟩ <;> intro k q hq <;> simp only [CMap.set] at hq ⊢
+        all_goals grind
+
+theorem inv_remove (c : Coll) (id : Str) (h : Inv c) : Inv (c.remove id).1 := by
+  unfold Coll.remove
+  split
+  · exact h
+  · rename_i q hq
+    obtain ⟨ha, hb, hc⟩ := h
+    refine ⟨?_, ?_, ?_⟩ <;> intro k p hp <;> simp only [CMap.del] at hp ⊢
+    all_goals grind
+theorem remove_ok (c : Coll) (id : Str) (h : (c.remove id).2 = true) : ∃ q, c.byID id = some q := by
+  unfold Coll.remove at h
+  split at h
+  · simp at h
+  · rename_i q hq; exact ⟨q, hq⟩
+
+theorem inv_update (c : Coll) (nu : CP) (h : Inv c) : Inv (c.update nu).1 := by
+  unfold Coll.update
+  split
+  · exact h
+  · split
+    · exact h
+    · split
+      · exact h
+      · simp only
+        split
+        · exact inv_remove _ _ h
+        · exact inv_store _ _ (inv_remove _ _ h)
+
+theorem inv_foldl (ops : List COp) (c : Coll) (h : Inv c) : Inv (ops.foldl Coll.step c) := by
+  induction ops generalizing c with
+  | nil => exact h
+  | cons o os ih =>
+    apply ih
+    cases o <;> simp only [Coll.step]
+    · exact inv_store _ _ h
+    · exact inv_remove _ _ h
+    · exact inv_update _ _ h
+
+theorem collection_consistent (ops : List COp) : Inv (Coll.run ops) := inv_foldl _ _ inv_empty
+
+theorem lookup_current (ops : List COp) (t : Str) (p : CP) (h : (Coll.run ops).byTok t = some p) :
+    p.tok = t ∧ (Coll.run ops).byID p.id = some p ∧ (Coll.run ops).byName p.name = some p := by
+  obtain ⟨ha, _, hc⟩ := collection_consistent ops
+  obtain ⟨h1, h2⟩ := hc _ _ h
+  exact ⟨h1, h2, (ha _ _ h2).2.1⟩
+
+theorem update_retires_old_id (c : Coll) (nu old : CP) (h : Inv c) (ho : c.byID nu.id = some old)
+    (hok : (c.update nu).2 = true) (hne : old.tok ≠ nu.tok) : (c.update nu).1.byTok old.tok = none := by
+  have hid : old.id = nu.id := (h.1 _ _ ho).1
+  have hr : c.remove old.id = (⟨c.byID.del old.id, c.byName.del old.name, c.byTok.del old.tok⟩, true) := by
+    unfold Coll.remove; rw [hid, ho]
+  unfold Coll.update at hok ⊢
+  rw [ho] at hok ⊢
+  simp only [hr] at hok ⊢
+  by_cases h1 : old.name ≠ nu.name ∧ (c.byName nu.name).isSome
+  · rw [if_pos h1] at hok; simp at hok
+  · rw [if_neg h1] at hok ⊢
+    by_cases h2 : old.tok ≠ nu.tok ∧ (c.byTok nu.tok).isSome
+    · rw [if_pos h2] at hok; simp at hok
+    · rw [if_neg h2] at hok ⊢
+      simp only [Bool.not_true, Bool.false_eq_true, if_false] at hok ⊢
+      unfold Coll.store at hok ⊢
+      split at hok
+      · simp at hok
+      · split at hok
+        · simp at hok
+        · split at hok
+          · simp at hok
+          · simp [CMap.set, CMap.del, hne]
+
+theorem remove_retires (c : Coll) (id : Str) (q : CP) (hq : c.byID id = some q) :
+    (c.remove id).1.byTok q.tok = none ∧ (c.remove id).1.byName q.name = none ∧ (c.remove id).1.byID id = none := by
+  unfold Coll.remove
+  simp [hq, CMap.del]
+
+/-! ### source-derived tables: the authorization call chain and the method sets -/
+
+/-- one item of a skeleton, without its nested blocks -/
+def Fl.shape : Fl → String
+  | .call n .none => "C(" ++ n ++ ")"
+  | .call n .returns => "C(" ++ n ++ ")!"
+  | .call n .other => "C(" ++ n ++ ")?"
+  | .cond c _ _ => "I[" ++ c ++ "]"
+  | .sw tag _ => "S[" ++ tag ++ "]"
+  | .ret _ => "R"
+  | .unknown w => "X:" ++ w
+
+def Fl.inner : Fl → List Fl
+  | .cond _ t _ => t
+  | _ => []
+
+def Fl.cases : Fl → List (String × List Fl)
+  | .sw _ cs => cs
+  | _ => []
+
+def flowOf (fn : String) : List Fl := ((flows.find? (·.1 = fn)).map (·.2)).getD []
+
+/-- the `authority` function, the provisioner method and the `case` label of each operation -/
+def fnOf : Op → String
+  | .sign => "authorizeSign" | .sshSign => "authorizeSSHSign" | .sshRenew => "authorizeSSHRenew"
+  | .sshRekey => "authorizeSSHRekey" | .revoke => "authorizeRevoke" | .sshRevoke => "authorizeSSHRevoke"
+
+def methodOf : Op → String
+  | .sign => "AuthorizeSign" | .sshSign => "AuthorizeSSHSign" | .sshRenew => "AuthorizeSSHRenew"
+  | .sshRekey => "AuthorizeSSHRekey" | .revoke => "AuthorizeRevoke" | .sshRevoke => "AuthorizeSSHRevoke"
+
+def labelOf : Op → String
+  | .sign => "case provisioner.SignMethod, provisioner.SignIdentityMethod"
+  | .sshSign => "case provisioner.SSHSignMethod" | .sshRenew => "case provisioner.SSHRenewMethod"
+  | .sshRekey => "case provisioner.SSHRekeyMethod" | .revoke => "case provisioner.RevokeMethod"
+  | .sshRevoke => "case provisioner.SSHRevokeMethod"
+
+/-- **authorize_chain.** In the source, each of the six `authorize<Op>` functions calls
+    `a.authorizeToken` first and returns on its error, then calls the provisioner method of the
+    *same* operation and returns on its error, and does nothing else. -/
+theorem authorize_chain (op : Op) :
+    (flowOf (fnOf op)).map Fl.shape = ["C(a.authorizeToken)!", "C(p." ++ methodOf op ++ ")!", "R"] := by
+  cases op <;> decide
+
+def isSSHGuard : Fl → Bool
+  | .cond c [.ret []] [] => c == "a.sshCAHostCertSignKey == nil && a.sshCAUserCertSignKey == nil"
+  | _ => false
+
+/-- what the `case` of `Authorize` for one operation does: (tests for an SSH CA key first, callee) -/
+def caseInfo (b : List Fl) : Option (Bool × String) :=
+  match b with
+  | [.call n _, .ret []] => some (false, n)
+  | [.ret [n]] => some (false, n)
+  | [g, .call n _, .ret []] => if isSSHGuard g then some (true, n) else none
+  | _ => none
+
+def dispatchOf (op : Op) : Option (Bool × String) :=
+  match flowOf "Authorize" with
+  | [f] => ((f.cases.find? (·.1 = labelOf op)).map (·.2)).bind caseInfo
+  | _ => none
+
+/-- **dispatch_table.** `Authority.Authorize` is one switch on the method; the case of each
+    operation calls exactly `a.authorize<Op>`, after the "is there an SSH CA key" test precisely for
+    the operations the model marks `needsSSHCA`. -/
+theorem dispatch_table (op : Op) : dispatchOf op = some (needsSSHCA op, "a." ++ fnOf op) := by
+  cases op <;> decide
+
+/-- **authorizeToken_order.** `authorizeToken` = provisioner lookup (returns on error), then the
+    issued-at gate under `!DisableIssuedAtCheck` comparing with `a.startTime`, then `UseToken` unless
+    the context asks to skip it — the order `authorize` and `Reject.beforeUseToken` assume. -/
+theorem authorizeToken_order :
+    (flowOf "authorizeToken").map Fl.shape =
+      ["C(a.getProvisionerFromToken)!",
+       "I[a.config.AuthorityConfig != nil && !a.config.AuthorityConfig.DisableIssuedAtCheck]",
+       "I[!SkipTokenReuseFromContext(ctx)]", "R"] ∧
+    ((flowOf "authorizeToken").map fun f => f.inner.map Fl.shape) =
+      [[], ["I[claims.IssuedAt != nil && claims.IssuedAt.Time().Before(a.startTime)]"], ["C(a.UseToken)!"], []] ∧
+    ((flowOf "authorizeToken").map fun f => f.inner.map fun g => g.inner.map Fl.shape) =
+      [[], [["R"]], [[]], []] := by decide
+
+/-- **lookup_order.** `getProvisionerFromToken` = parse, unverified claims, `LoadProvisionerByToken`
+    (each returning on error), then the refusal of ACME / SCEP provisioners, then the refusal of
+    `Uninitialized` ones — the order of `authorize`. -/
+theorem lookup_order :
+    (flowOf "getProvisionerFromToken").map Fl.shape =
+      ["C(jose.ParseSigned)!", "C(tok.UnsafeClaimsWithoutVerification)!", "C(a.LoadProvisionerByToken)!",
+       "S[p.GetType()]", "I[_, ok := p.(provisioner.Uninitialized); ok]", "R"] ∧
+    ((flowOf "getProvisionerFromToken").map fun f => f.cases.map fun c => (c.1, c.2.map Fl.shape)) =
+      [[], [], [], [("case provisioner.TypeACME, provisioner.TypeSCEP", ["R"])], [], []] ∧
+    ((flowOf "getProvisionerFromToken").map fun f => f.inner.map Fl.shape) = [[], [], [], [], ["R"], []] := by decide
+
+/-- **sshpop_keys_source.** In the source, `generateProvisionerConfig` takes the SSH keys it hands to
+    the provisioners from `a.GetSSHRoots` (returning on its error) and never from the federation list —
+    what `Config.sshRoot` models. -/
+theorem sshpop_keys_source :
+    (flowOf "generateProvisionerConfig").map Fl.shape = ["I[err != nil]", "C(a.GetSSHRoots)!", "R"] := by decide
+
+/-- the Go type of each modelled provisioner type -/
+def goType : PType → String
+  | .jwk => "JWK" | .x5c => "X5C" | .sshpop => "SSHPOP" | .oidc => "OIDC" | .k8ssa => "K8sSA" | .nebula => "Nebula"
+  | .acme => "ACME" | .scep => "SCEP" | .aws => "AWS" | .gcp => "GCP" | .azure => "Azure"
+
+/-- the provisioner type declares the `Authorize*` method of this operation itself
+    (otherwise the call lands in `base`, which refuses) -/
+def supports (ty : PType) (op : Op) : Bool :=
+  match declared.find? (·.1 = goType ty) with
+  | some (_, ms, _) => ms.contains (methodOf op)
+  | none => false
+
+/-- **unsupported_refused.** If, in the source, a provisioner type does not declare the method of an
+    operation, the model refuses every token for that type and operation with "not implemented". -/
+theorem unsupported_refused (cfg : Config) (p : Prov) (c : Cr) (l : Cl) (now : Int) (op : Op) (t : Tok)
+    (h : supports p.ty op = false) : provOp cfg p c l now op t = .reject .notImplemented := by
+  cases hty : p.ty <;> cases op <;> rw [hty] at h <;>
+    first
+    | (exfalso; revert h; decide)
+    | simp [provOp, hty, jwkOp, x5cOp, sshpopOp, oidcOp, k8sOp, awsOp, gcpOp, azureOp, tokenlessOp, baseReject]
+
+/-- every modelled type embeds `*base` or declares all six methods, so every call of the chain resolves -/
+theorem methods_resolve :
+    ∀ d ∈ declared, d.2.2 = true ∨ d.2.1.length = 6 := by decide
+
+/-- all eleven modelled types are in the table, in the model's order -/
+theorem declared_listed :
+    declared.map (·.1) = ["JWK", "X5C", "SSHPOP", "OIDC", "K8sSA", "Nebula", "ACME", "SCEP", "AWS", "GCP", "Azure"] := by decide
+
+/-! ### the signing surface of package `api` -/
+
+def tokenHandlers : List String := ["Sign", "SSHSign", "SSHRenew", "SSHRekey", "SSHRevoke", "Revoke"]
+
+/-- handlers that renew / rekey on the strength of the client's own certificate (mTLS or renew
+    token: property C09), and the helper the SSH handlers call after their own `Authorize` -/
+def certAuthenticated : List String := ["Renew", "Rekey", "renewIdentityCertificate"]
+
+/-- **signing_surface.** In package `api`, every function that calls a signing, renewing, rekeying or
+    revoking method is one of the six token handlers of `handlerPaths` (where `nothing_happens`
+    applies) or one of the certificate-authenticated ones; and the functions that call `Authorize`
+    are exactly the six. -/
+theorem signing_surface :
+    (∀ f ∈ apiSurface, f.2.2 ≠ [] → f.1 ∈ tokenHandlers ∨ f.1 ∈ certAuthenticated) ∧
+    ((apiSurface.filter (·.2.1)).map (·.1)).all (· ∈ tokenHandlers) = true ∧
+    tokenHandlers.all (fun h => apiSurface.any fun f => f.1 == h && f.2.1) = true ∧
+    tokenHandlers.all (fun h => handlerPaths.any (·.1 == h)) = true := by decide
+
+/-- **token_routes.** The routes served by the six token handlers are the seven POST endpoints of the
+    property (`/sign-ssh` being the legacy alias of `/ssh/sign`); no other method or path reaches them. -/
+theorem token_routes :
+    (apiRoutes.filter fun r => r.2.2 ∈ tokenHandlers).map (fun r => (r.1, r.2.1)) =
+      [("POST", "/sign"), ("POST", "/revoke"), ("POST", "/ssh/sign"), ("POST", "/ssh/renew"),
+       ("POST", "/ssh/revoke"), ("POST", "/ssh/rekey"), ("POST", "/sign-ssh")] := by decide
 
 /-! ### nothing is signed, stored or revoked without a successful Authorize -/
 
